@@ -394,22 +394,27 @@ CompactFresh ==
     /\ Ver < 3 /\ Unnamed = {} /\ Undecodable = {}
     /\ CompactTo(SessView, 0) /\ UNCHANGED devs
 CompactRefuseUnreadable ==
-    /\ Ver < 3 /\ (Unnamed # {} \/ Undecodable # {})
+    /\ (Unnamed # {} \/ Undecodable # {})
     /\ wopen /\ pc = "idle" /\ NewCall
     \* the flush and the re-open at the top of compact() have happened
-    /\ IF wdirty THEN /\ ddisk' = [ddisk EXCEPT !.slots = hslots, !.blocks = hblocks, !.tpos = hcursor, !.lf = vlf, !.slk = Slack]
-                       /\ hcursor' = hcursor + Len(hblocks) + Slack
-                  ELSE UNCHANGED <<ddisk, hcursor>>
+    /\ IF wdirty /\ Ver < 3
+       THEN /\ ddisk' = [ddisk EXCEPT !.slots = hslots, !.blocks = hblocks, !.tpos = hcursor, !.lf = vlf, !.slk = Slack]
+            /\ hcursor' = hcursor + Len(hblocks) + Slack
+       ELSE IF wdirty      \* V3/V4: the broken flush (F-C06-c)
+       THEN /\ ddisk' = IF Len(hblocks) # Len(ddisk.blocks) \/ ~vlf THEN [ddisk EXCEPT !.ok = FALSE] ELSE ddisk
+            /\ UNCHANGED hcursor
+       ELSE UNCHANGED <<ddisk, hcursor>>
     /\ wdirty' = FALSE
     /\ stale' = ListedNow /\ staleMap' = SessView
     /\ hsnap' = SessView /\ Finish("refused")
     /\ devs' = devs \cup (IF ~vlf THEN {"nolistfile"} ELSE {})
                      \cup (IF vlf /\ Unnamed # {} THEN {"unlisted"} ELSE {})
                      \cup (IF Undecodable # {} THEN {"undecodable"} ELSE {})
+                     \cup (IF wdirty /\ Ver >= 3 THEN {"v34flush"} ELSE {})
     /\ UNCHANGED <<hslots, hblocks, wopen, vlf>>
 \* V3/V4: compact() starts with the broken flush; what follows is not modelled (blanket F-C06-c)
 CompactV3 ==
-    /\ Ver >= 3
+    /\ Ver >= 3 /\ Unnamed = {} /\ Undecodable = {}
     /\ CompactTo([n \in UNames |-> IF n \in ListedNow THEN SessView[n] ELSE None], 0)
     /\ devs' = devs \cup (IF wdirty THEN {"v34flush"} ELSE {}) \cup (IF ~vlf THEN {"nolistfile"} ELSE {})
 
